@@ -2,6 +2,7 @@ package main
 
 import (
 	"fmt"
+	"strings"
 	"time"
 
 	"verif/engine/chainsim"
@@ -27,8 +28,21 @@ var appSpec = chainsim.CheckSpec{
 		rm.Report(rep)
 		rep.Count("app.histories", 1)
 		rep.Count("app.blocks", h.Height)
+		// A fatal error of the roothash application is a verdict of this property: every case in which a
+		// round cannot finalize has to end in waiting, discrepancy resolution or a failed round with an
+		// empty block, never in an error that aborts the block. Other panics belong to C10.
+		roundAbort := false
 		for _, p := range h.Panics {
-			rep.Inconclusive("app level: history ended by a panic (see C10): " + p.Error())
+			if msg := p.Error(); strings.Contains(msg, "fatal error in application") && strings.Contains(msg, "_roothash'") {
+				roundAbort = true
+				rep.Violation("c11/app/round-processing-aborted-the-block", "the roothash application returned a fatal error instead of waiting, resolving the discrepancy or failing the round: "+msg,
+					map[string]any{"seed": c.Seed, "profile": c.Profile, "height": h.Height, "panic": msg})
+			}
+		}
+		for _, p := range h.Panics {
+			if !roundAbort {
+				rep.Inconclusive("app level: history ended by a panic (see C10): " + p.Error())
+			}
 		}
 		if h.Height >= int64(c.Blocks)/2 && h.EpochTransitions >= 2 {
 			rep.Nontrivial(fmt.Sprintf("app/%s/%d", c.Profile, c.Seed))
